@@ -49,12 +49,15 @@ theorem C19_admitted_checks (e : Env) (s : St) (t : Tx) (h : admissible e s t = 
     t.nonce = s.nonce t.sender ∧ e.baseFee ≤ t.feeCap ∧ anteFee e t ≤ s.bal t.sender ∧
     (0 < t.value → t.value ≤ s.bal t.sender) ∧
     (0 < e.blockGasLimit → t.gasLimit ≤ e.blockGasLimit ∧ s.blockGas < e.blockGasLimit) ∧
-    minGasPriceOk e t = true ∧ t.sigOk = true ∧ 0 < t.gasLimit := by
-  simp only [admissible, wellFormed, Bool.and_eq_true, decide_eq_true_eq, Bool.not_eq_true', Bool.and_eq_false_iff,
+    minGasPriceOk e t = true ∧ t.sigOk = true ∧ 0 < t.gasLimit ∧
+    t.feeCap * t.gasLimit + t.value ≤ s.bal t.sender := by
+  have hcost := ((admissible_iff e s t).mp h).2
+  have h := ((admissible_iff e s t).mp h).1
+  simp only [admissibleSeparate, wellFormed, Bool.and_eq_true, decide_eq_true_eq, Bool.not_eq_true', Bool.and_eq_false_iff,
     decide_eq_false_iff_not] at h
   obtain ⟨⟨⟨⟨⟨⟨⟨⟨h1, h2⟩, hw⟩, h4⟩, h5⟩, h6⟩, h7⟩, h8⟩, h9⟩ := h
   obtain ⟨⟨⟨⟨⟨_, hgl⟩, _⟩, _⟩, _⟩, _⟩ := hw
-  refine ⟨h9, h5, h7, ?_, ?_, h2, h4, hgl⟩
+  refine ⟨h9, h5, h7, ?_, ?_, h2, h4, hgl, hcost⟩
   · intro hv; rcases h6 with h | h <;> omega
   · intro hl; rcases h1 with h | h <;> rcases h8 with h' | h' <;> omega
 
@@ -119,7 +122,8 @@ theorem C19_refund_at_purchase_price (e : Env) (t : Tx) (hb : 0 ≤ e.baseFee) :
 theorem C19_effective_price_bounds (e : Env) (s : St) (t : Tx) (_hb : 0 ≤ e.baseFee) (h : admissible e s t = true) :
     antePrice e t ≤ t.feeCap ∧ (t.ty = 2 → e.baseFee ≤ antePrice e t) ∧ (t.ty ≠ 2 → antePrice e t = t.feeCap) := by
   have hc := (C19_admitted_checks e s t h).2.1
-  simp only [admissible, wellFormed, Bool.and_eq_true, decide_eq_true_eq, Bool.or_eq_true, bne_iff_ne, ne_eq] at h
+  have h := ((admissible_iff e s t).mp h).1
+  simp only [admissibleSeparate, wellFormed, Bool.and_eq_true, decide_eq_true_eq, Bool.or_eq_true, bne_iff_ne, ne_eq] at h
   obtain ⟨⟨⟨⟨⟨⟨⟨⟨_, _⟩, hw⟩, _⟩, _⟩, _⟩, _⟩, _⟩, _⟩ := h
   obtain ⟨_, htip⟩ := hw
   unfold antePrice
@@ -215,7 +219,7 @@ theorem C19_gas_charged_bounds (e : Env) (s : St) (t : Tx) (x : Exec) (h : admis
     (hm0 : 0 ≤ e.minGasMult.raw) (hm1 : e.minGasMult.raw ≤ PREC)
     (hx0 : 0 ≤ x.evmGasUsed) (hx1 : x.evmGasUsed ≤ t.gasLimit) :
     (t.gasLimit * e.minGasMult.raw).tdiv PREC ≤ (deliver e s t x).2.2 ∧ (deliver e s t x).2.2 ≤ t.gasLimit := by
-  have hL : 0 ≤ t.gasLimit := by have := (C19_admitted_checks e s t h).2.2.2.2.2.2.2; omega
+  have hL : 0 ≤ t.gasLimit := by have := (C19_admitted_checks e s t h).2.2.2.2.2.2.2.1; omega
   obtain ⟨heq, _, _, hle⟩ := C19_gas_used_bounds e t x hL hm0 hm1 hx0 hx1
   have hnn : 0 ≤ t.gasLimit * e.minGasMult.raw := Int.mul_nonneg hL hm0
   have hmin : (t.gasLimit * e.minGasMult.raw).tdiv PREC ≤ t.gasLimit := by
@@ -274,7 +278,7 @@ theorem C19_block_gas_exhausted_rejects (e : Env) (s : St) (t : Tx) (x : Exec)
     (hl : 0 < e.blockGasLimit) (hfull : e.blockGasLimit ≤ s.blockGas) :
     deliver e s t x = ({ s with blockGas := s.blockGas + x.rejGas }, .rejected, 0) := by
   apply C19_inadmissible_costs_nothing
-  simp [admissible, hl, hfull]
+  simp [admissible, admissibleSeparate, hl, hfull]
 
 /-- the block gas meter never runs backwards -/
 theorem C19_block_gas_monotone (e : Env) (s : St) (t : Tx) (x : Exec)
@@ -287,29 +291,50 @@ theorem C19_block_gas_monotone (e : Env) (s : St) (t : Tx) (x : Exec)
     · dsimp only
       split <;> (simp only []; omega)
 
-/-! ## the full statement and where the unchanged code departs from it (finding F-19a) -/
+/-! ## the admission clause at full strength (holds since the F-19a repair) and the pre-repair regression -/
 
 /-- The property's admission clause read literally: a transaction whose sender cannot pay value + fee is not
-    included. In DeliverTx the code checks `value ≤ balance` and `fee ≤ balance` separately
-    (EthAccountVerificationDecorator, the only place comparing the balance with the total cost, returns early
-    unless `ctx.IsCheckTx()`). -/
+    included and costs nothing. -/
 def C19_full : Prop :=
   ∀ (e : Env) (s : St) (t : Tx) (x : Exec), 0 ≤ e.baseFee →
     s.bal t.sender < t.value + anteFee e t → (deliver e s t x).2.1 = .rejected
+
+/-- the fee actually charged never exceeds the fee cap the total-cost check uses -/
+theorem anteFee_le_cap (e : Env) (t : Tx) (hg : 0 ≤ t.gasLimit) : anteFee e t ≤ t.feeCap * t.gasLimit := by
+  unfold anteFee
+  apply Int.mul_le_mul_of_nonneg_right _ hg
+  unfold antePrice
+  split <;> omega
+
+/-- Since EthAccountVerificationDecorator runs in DeliverTx too, the clause holds for every environment, state,
+    transaction and EVM result. -/
+theorem C19_admission_total_cost : C19_full := by
+  intro e s t x _ hlt
+  rw [C19_rejected_iff_inadmissible]
+  cases hadm : admissible e s t
+  · rfl
+  · exfalso
+    have hc := C19_admitted_checks e s t hadm
+    have hg : 0 ≤ t.gasLimit := by have := hc.2.2.2.2.2.2.2.1; omega
+    have := anteFee_le_cap e t hg
+    have := hc.2.2.2.2.2.2.2.2
+    omega
 
 def f19aEnv : Env := { baseFee := 1000000000, blockGasLimit := -1, minGasMult := ⟨500000000000000000⟩, minGasPrice := ⟨0⟩, collector := 0 }
 def f19aSt : St := { bal := fun a => if a = 1 then 50000000000000 else 0, nonce := fun _ => 0, blockGas := 0 }
 def f19aTx : Tx := { ty := 0, sender := 1, recipient := 2, nonce := 0, gasLimit := 21000, feeCap := 2000000000, tipCap := 0,
                      value := 8000000000001, sigOk := true, intrinsic := 21000 }
 
-/-- value + fee = balance + 1: included, the EVM fails it ("insufficient balance for transfer"), the fee is kept -/
-theorem C19_full_fails : ¬ C19_full := by
-  intro h
-  have := h f19aEnv f19aSt f19aTx { evmGasUsed := 21000, failed := true } (by decide) (by decide)
-  revert this
-  decide
+/-- Pre-repair regression (F-19a): value + fee = balance + 1 passes every check DeliverTx used to perform (value ≤
+    balance, fee ≤ balance, nonce, base fee …) — it was included, failed in the EVM and was charged — and is rejected
+    only by the total-cost comparison. Dropping `totalCostOk` from `admissible` re-opens the gap. -/
+theorem C19_regression_F19a :
+    admissibleSeparate f19aEnv f19aSt f19aTx = true ∧
+    f19aSt.bal f19aTx.sender < f19aTx.value + anteFee f19aEnv f19aTx ∧
+    admissible f19aEnv f19aSt f19aTx = false ∧
+    (deliver f19aEnv f19aSt f19aTx { evmGasUsed := 21000, failed := true }).2 = (.rejected, 0) := by decide
 
-/-- what does hold: a sender that can pay neither the value nor the fee is rejected -/
+/-- a sender that can pay neither the value nor the fee is rejected (the two separate checks) -/
 theorem C19_admission_partial (e : Env) (s : St) (t : Tx) (x : Exec)
     (h : s.bal t.sender < anteFee e t ∨ (0 < t.value ∧ s.bal t.sender < t.value)) :
     deliver e s t x = ({ s with blockGas := s.blockGas + x.rejGas }, .rejected, 0) := by
